@@ -110,7 +110,11 @@ func init() {
 
 func init() {
 	// identifiers drawn from the global source: any value is admissible; a fixed one is used
-	fixed := func(m *machine, fr *frame, fn *ssa.Function, a []value) (value, bool) { return int64(0x5eed), true }
+	// (a different one per call, so that two draws are distinguishable; deterministic per path)
+	fixed := func(m *machine, fr *frame, fn *ssa.Function, a []value) (value, bool) {
+		m.randDraws++
+		return int64(0x5eed) + int64(m.randDraws), true
+	}
 	reg("math/rand.Uint64", fixed)
 	reg("math/rand.Uint32", fixed)
 	reg("math/rand/v2.Uint64", fixed)
